@@ -1,5 +1,6 @@
 import RsModel.Model.Tree
 import RsModel.Props.C01
+import RsModel.Lemmas.AttrTree
 /-!
 # C13 — composition laws: nesting, neutral elements and wrappers change nothing
 -/
@@ -76,5 +77,56 @@ theorem c13_boxed_nesting_stream_text (as bs : List Src) (c : Bool) (σ σ' : St
     evsText ((mkConcat [.other (mkConcat (as.map .other)), .other (mkConcat (bs.map .other))]).stream ⟨c, false⟩ σ).1.evs
       = evsText ((mkConcat ((as ++ bs).map .other)).stream ⟨c, false⟩ σ').1.evs :=
   c13_stream_text_of_src _ _ c σ σ' h1 h2 (c13_boxed_nesting_text as bs)
+
+/-! ## boxed nesting and single child, at attribution level (from C06's ConcatSource theorem) -/
+
+/-- a boxed `ConcatSource` used as a child attributes like its children spliced in place -/
+theorem c13_boxed_nesting_attribution (cons : Text → Option Text) (as bs : List SResult)
+    (ha : ∀ c ∈ as, WellDecl cons emptyS emptyN c.evs ∧ evsTL c.evs = false)
+    (hb : ∀ c ∈ bs, WellDecl cons emptyS emptyN c.evs ∧ evsTL c.evs = false) :
+    attrN emptyS emptyN (concatStream false (concatStream false as :: bs)).evs
+      = attrN emptyS emptyN (concatStream false (as ++ bs)).evs := by
+  rw [concatStream_attrN cons (concatStream false as :: bs) (by
+        intro c hc
+        simp only [List.mem_cons] at hc
+        rcases hc with rfl | hc
+        · exact ⟨concatStream_wellDecl cons as ha, concatStream_tl as (fun c hc => (ha c hc).2)⟩
+        · exact hb c hc),
+      concatStream_attrN cons (as ++ bs) (by
+        intro c hc
+        simp only [List.mem_append] at hc
+        rcases hc with hc | hc
+        · exact ha c hc
+        · exact hb c hc)]
+  simp only [List.map_cons, List.flatten_cons, List.map_append, List.flatten_append]
+  rw [concatStream_attrN cons as ha]
+
+/-- a ConcatSource of one child attributes like the child -/
+theorem c13_single_child_attribution (cons : Text → Option Text) (a : SResult)
+    (ha : WellDecl cons emptyS emptyN a.evs ∧ evsTL a.evs = false) :
+    attrN emptyS emptyN (concatStream false [a]).evs = attrN emptyS emptyN a.evs := by
+  rw [concatStream_attrN cons [a] (by intro c hc; simp only [List.mem_singleton] at hc; subst hc; exact ha)]
+  simp
+
+/-- an empty child contributes nothing to the attribution -/
+theorem c13_empty_child_attribution (cons : Text → Option Text) (as bs : List SResult) (e : SResult)
+    (ha : ∀ c ∈ as, WellDecl cons emptyS emptyN c.evs ∧ evsTL c.evs = false)
+    (hb : ∀ c ∈ bs, WellDecl cons emptyS emptyN c.evs ∧ evsTL c.evs = false) (he : e.evs = []) :
+    attrN emptyS emptyN (concatStream false (as ++ e :: bs)).evs = attrN emptyS emptyN (concatStream false (as ++ bs)).evs := by
+  have hmem : ∀ c ∈ as ++ e :: bs, WellDecl cons emptyS emptyN c.evs ∧ evsTL c.evs = false := by
+    intro c hc
+    simp only [List.mem_append, List.mem_cons] at hc
+    rcases hc with hc | rfl | hc
+    · exact ha c hc
+    · rw [he]; exact ⟨trivial, rfl⟩
+    · exact hb c hc
+  have hmem2 : ∀ c ∈ as ++ bs, WellDecl cons emptyS emptyN c.evs ∧ evsTL c.evs = false := by
+    intro c hc
+    simp only [List.mem_append] at hc
+    rcases hc with hc | hc
+    · exact ha c hc
+    · exact hb c hc
+  rw [concatStream_attrN cons _ hmem, concatStream_attrN cons _ hmem2]
+  simp [he, attrN]
 
 end Rs
